@@ -155,14 +155,16 @@ class GroupOutput(PartFlowController):
 
     def give_part(self, part):
         try:
-            last_entered_group = part._group_pathing[-1]
+            # The Part leaves this Group before it is offered downstream
+            # because the receiver may be another GroupPath.
+            last_entered_group = part._group_pathing.pop()
         except IndexError:
             raise RuntimeError(f'Part {part.name} is trying to exit Group {self._group.name}'
                                +f' but does not contain information on which GroupPath to use.')
 
         did_pass = last_entered_group._pass_part_downstream(part)
-        if did_pass:
-            part._group_pathing.pop()
+        if not did_pass:
+            part._group_pathing.append(last_entered_group)
         return did_pass
 
     def _add_downstream(self, downstream):
